@@ -27,6 +27,8 @@ Every rule then sees the same tree for
     if c: ..exit  else: REST   ->  if c: ..exit; REST    (no else after a branch that always leaves)
     self.n = self.n - 1        ->  self.n -= 1           (integer constant)
 
+    set(x for ..) / list(x for ..) / dict((k, v) for ..)  ->  {x for ..} / [x for ..] / {k: v for ..}
+
 Positions of the original nodes are kept, so reports still point at the source line.  `tools/equiv_probe.py`
 applies the inverse rewrites to every module and checks that every rule stays silent.
 """
@@ -102,6 +104,7 @@ class Canon(ast.NodeTransformer):
     def __init__(self, signatures: Dict[str, List[str]]):
         self.signatures = signatures
         self.numeric: List[set] = [set()]
+        self.shadowed: set = set()  # builtin names rebound somewhere in the module (set per module by canonicalise)
 
     # -- expressions -----------------------------------------------------------
     def visit_Compare(self, node: ast.Compare):
@@ -164,6 +167,15 @@ class Canon(ast.NodeTransformer):
 
     def visit_Call(self, node: ast.Call):
         node = self.generic_visit(node)
+        # set(x for ..) / list(x for ..) / dict((k, v) for ..) are the comprehension displays
+        if isinstance(node.func, ast.Name) and node.func.id in ("set", "list", "dict") and node.func.id not in self.shadowed and len(node.args) == 1 and not node.keywords and isinstance(node.args[0], ast.GeneratorExp):
+            gen = node.args[0]
+            if node.func.id == "set":
+                return ast.copy_location(ast.SetComp(elt=gen.elt, generators=gen.generators), node)
+            if node.func.id == "list":
+                return ast.copy_location(ast.ListComp(elt=gen.elt, generators=gen.generators), node)
+            if isinstance(gen.elt, ast.Tuple) and len(gen.elt.elts) == 2:
+                return ast.copy_location(ast.DictComp(key=gen.elt.elts[0], value=gen.elt.elts[1], generators=gen.generators), node)
         if isinstance(node.func, ast.Name) and node.func.id in self.signatures and node.keywords and not any(isinstance(a, ast.Starred) for a in node.args):
             params = self.signatures[node.func.id]
             given = {k.arg: k.value for k in node.keywords if k.arg is not None}
@@ -374,6 +386,8 @@ def package_signatures(trees: Sequence[ast.Module]) -> Dict[str, List[str]]:
 
 
 def canonicalise(tree: ast.Module, signatures: Dict[str, List[str]]) -> ast.Module:
-    tree = Canon(signatures).visit(tree)
+    canon = Canon(signatures)
+    canon.shadowed = {n.id for n in ast.walk(tree) if isinstance(n, ast.Name) and isinstance(n.ctx, ast.Store)} | {a.arg for a in ast.walk(tree) if isinstance(a, ast.arg)}
+    tree = canon.visit(tree)
     ast.fix_missing_locations(tree)
     return tree
